@@ -111,6 +111,15 @@ Input(e) ==
       [] e.ev = "del_group" -> IF Ok(e) THEN DeleteGroup(kmap[e.who]) ELSE Quiet
       [] e.ev = "make_group" -> IF Ok(e) THEN MakeGroup(kmap[e.who]) ELSE Quiet
 
+(* C19: between the shutdown and this start the server was started with ANOTHER key: the undecryptable journal must have made *)
+(* that start fail, and in no case may old data have been handed out; the sweep of this event (right key again) is judged as    *)
+(* after any restart: catalogue and data exactly as before                                                                     *)
+WrongKeyLabels(e) ==
+    IF "wrong_key_outcome" \notin DOMAIN e THEN {}
+    ELSE (IF e.wrong_key_outcome # <<"start_failed">> THEN {<<"C19.wrong_key_not_reported", e.wrong_key_outcome>>} ELSE {})
+         \cup (IF \E i \in 1..Len(e.wrong_key_outcome) : e.wrong_key_outcome[i] \in {"messages", "plaintext"}
+               THEN {<<"C19.wrong_key_served", e.wrong_key_outcome>>} ELSE {})
+
 (* labels about the input action's own result, judged on the pre-state *)
 InputLabels(e) ==
     CASE e.ev = "store" ->
@@ -134,7 +143,7 @@ InputLabels(e) ==
                     \/ e.obs[e.p].read \notin { RunOf(log'[e.p], x, Len(log'[e.p])) : x \in LoSet(lo'[e.p], cacheLo'[e.p]) })
              THEN {<<"C18.append", e.p, e.obs[e.p].cur, CurOf(log'[e.p])>>} ELSE {})
       [] e.ev \in {"del_group", "make_group"} -> {}
-      [] e.ev = "restart" -> IF Ok(e) THEN {} ELSE {<<"C03.shutdown", e.res>>}
+      [] e.ev = "restart" -> (IF Ok(e) THEN {} ELSE {<<"C03.shutdown", e.res>>}) \cup WrongKeyLabels(e)
       [] OTHER -> Refused(e)
 
 Step(e) ==
